@@ -2307,6 +2307,41 @@ fn gen_c15(lvl: u8) -> Vec<Scenario> {
         sc.registry = true;
         out.push(sc);
     }
+    // a pipeline of 10 (12) nested asks, none of them closing a cycle, and an outsider that asks its head while all of
+    // them are in flight: nobody panics
+    for len in [10usize, 12] {
+        let mut ids = Ids(0);
+        let mut inner = MsgSpec::m1(ids.next()).steps(vec![Step::Sleep(10)]);
+        for i in (0..len - 1).rev() {
+            inner = MsgSpec::m1(ids.next()).steps(ask_steps(EdgeKind::Ask, i + 1, inner));
+        }
+        let probe = MsgSpec::m1(ids.next()).steps(ask_steps(EdgeKind::Ask, 0, MsgSpec::quick(ids.next())));
+        let actors: Vec<ActorSpec> = (0..len + 1).map(|_| ActorSpec::plain(2)).collect();
+        let c0 = Program::new(vec![(0, 0)], vec![send(SendKind::Tell, 0, inner)]);
+        let c1 = Program::new(vec![(0, len)], vec![Step::Sleep(5), send(SendKind::Tell, 0, probe)]);
+        n += 1;
+        let mut sc = scn(format!("c15-{n}-pipeline-of-{len}-probed-by-an-outsider"), actors, vec![c0, c1], &["quiet", "bound=2", "maxexecs=3000"]);
+        sc.registry = true;
+        out.push(sc);
+    }
+    // the acyclic-in-time pattern (A asks B and is answered; B's next message asks A) after a long history of asks
+    // between the two (300, and 70 000 - more than a 16-bit counter holds)
+    for warm in [300u32, 70_000] {
+        let mut ids = Ids(0);
+        let ping = MsgSpec::quick(ids.next());
+        // (B's second message is only sent once the warm-up is over: during it A really is waiting for B)
+        let go = MsgSpec::m1(ids.next()).steps(vec![Step::WarmAsks { slot: REG_BASE + 1, n: warm }, Step::Signal(0), send(SendKind::Ask, REG_BASE + 1, ping)]);
+        let echo = MsgSpec::quick(ids.next());
+        let back = MsgSpec::m1(ids.next()).steps(ask_steps(EdgeKind::Ask, 0, echo));
+        let c0 = Program::new(vec![(0, 0)], vec![send(SendKind::Tell, 0, go)]);
+        let c1 = Program::new(vec![(0, 1)], vec![Step::WaitSig(0), send(SendKind::Tell, 0, back)]);
+        n += 1;
+        // (an execution with 70 000 asks takes about a second: six schedules of it, the full tree of the short one)
+        let cap = if warm > 1000 { "maxexecs=6" } else { "maxexecs=400" };
+        let mut sc = scn(format!("c15-{n}-acyclic-after-{warm}-asks"), vec![ActorSpec::plain(3), ActorSpec::plain(3)], vec![c0, c1], &["quiet", "bound=2", cap, "fresh_process"]);
+        sc.registry = true;
+        out.push(sc);
+    }
     // ask_join: once the JoinHandle has been handed over the caller waits for a task, not for the callee; when the
     // callee then asks the caller, that ask simply queues
     for slow_task in [false, true] {
